@@ -475,3 +475,119 @@ def inter_case(job, t0):
                 fails.append(Failure("C14", "end_points=False keeps end-point entries (identical curves)", a=ra))
     r = _result(uname, rname, "x:%d:%d" % (ra, rb), fails, t0, [["MakeRegion", [1, ra]], ["MakeRegion", [2, rb]], ["QInter*", npairs]], row={"op": "x", "a": ra, "b": rb, "res": 0, "cls": row["cls"]})
     return r
+
+
+# ------------------------------------------------------------------ C15
+@guarded
+def split_case(job, t0):
+    """replay a SplitClean behaviour on a real JordanCurve"""
+    uname, rname, reg, beh, opts = job
+    st, real, w = _w(uname, rname)
+    sp = w.sp
+    den = opts.get("den", 12)
+    loop = st.loops(reg)[0]
+    ns = len(loop)
+    shape = w.simple_from_loop(loop)
+    J = shape.jordans[0]
+    orig = _copy.deepcopy(J)
+    osegs = list(orig.segments)
+    assert len(osegs) == ns, (len(osegs), ns)
+    exact = w.exact_mode(())
+    isfloat = real.numtype == "float"
+    fails = []
+    area0 = sp.IntegrateJordan.area(orig)
+    sign0 = float(orig) > 0
+    steps = []
+
+    def par(p, dup):
+        n, d = p
+        if isfloat:
+            v = n / d
+            if n == 0:
+                return 1e-7 if dup else 0.0     # "near 0" is ignored like 0
+            if n == d:
+                return 1 - 1e-7 if dup else 1.0
+            return v + (1e-12 if dup else 0.0)   # nearly repeated parameter
+        return F(n, d)
+
+    def check(brk, what):
+        segs = list(J.segments)
+        exp = []
+        for i in range(ns):
+            pts = sorted(set(brk[i]) | {0, den})
+            exp += [(i, pts[k], pts[k + 1]) for k in range(len(pts) - 1)]
+        if len(segs) != len(exp):
+            fails.append(Failure("C15", "number of segments differs from the specification", after=what, expected=len(exp), got=len(segs)))
+            return False
+        tol = 0 if exact else (1e-9 if real.deg == 1 else 1e-6)
+        for c, (i, lo, hi) in enumerate(exp):
+            piece, o = segs[c], osegs[i]
+            for s_ in (F(0), F(1, 4), F(1, 2), F(3, 4), F(1)):
+                t = F(lo, den) + s_ * F(hi - lo, den)
+                if isfloat:
+                    s_, t = float(s_), float(t)
+                p, q = piece(s_), o(t)
+                d = abs(float(p[0]) - float(q[0])) + abs(float(p[1]) - float(q[1]))
+                ok = (p[0] == q[0] and p[1] == q[1]) if exact else d <= tol * max(1.0, real.size)
+                if not ok:
+                    fails.append(Failure("C15", "piece does not retrace its part of the original segment", after=what, piece=c, orig=i, lo=lo, hi=hi, s=s_, dist=d))
+                    return False
+            nxt = segs[(c + 1) % len(segs)]
+            if piece.ctrlpoints[-1] is not nxt.ctrlpoints[0]:
+                fails.append(Failure("C15", "consecutive pieces do not share one junction point", after=what, piece=c))
+                return False
+            a_, b_ = piece.ctrlpoints[0], piece.ctrlpoints[-1]
+            if abs(float(a_[0]) - float(b_[0])) + abs(float(a_[1]) - float(b_[1])) < 1e-9 * max(1.0, real.size):
+                fails.append(Failure("C15", "zero-length piece", after=what, piece=c))
+                return False
+        area = sp.IntegrateJordan.area(J)
+        if (area != area0) if exact else abs(float(area) - float(area0)) > 1e-6 * max(1.0, abs(float(area0))):
+            fails.append(Failure("C15", "enclosed area changed", after=what, before=area0, now=area))
+        if (float(J) > 0) != sign0:
+            fails.append(Failure("C15", "orientation changed", after=what))
+        return True
+
+    for name, args, state in beh:
+        if name == "SCInit":
+            continue
+        last = state["last"]
+        brk = [sorted(b) for b in state["brk"]]
+        try:
+            if last["call"] == "split":
+                pairs = [tuple(p) for p in last["pairs"]]
+                seen = set()
+                idx, nodes = [], []
+                for c, p in pairs:
+                    dup = (c, tuple(p)) in seen or (tuple(p)[0] in (0, tuple(p)[1]) and len(seen) % 2 == 1)
+                    seen.add((c, tuple(p)))
+                    idx.append(c - 1)
+                    nodes.append(par(tuple(p), dup))
+                steps.append(["split", idx, [str(n) for n in nodes]])
+                J.split(idx, nodes)
+            else:
+                steps.append(["clean"])
+                r = J.clean()
+                if r is not J:
+                    fails.append(Failure("C15", "clean() did not return the same curve"))
+                n1 = len(J.segments)
+                J.clean()
+                if len(J.segments) != n1:
+                    fails.append(Failure("C15", "clean() is not idempotent"))
+                try:
+                    eq = J == orig
+                except BaseException as ex:  # noqa
+                    eq = repr(ex)
+                if eq is not True:
+                    fails.append(Failure("C15", "split followed by clean is not == the original", got=repr(eq)))
+        except BaseException as ex:  # noqa
+            fails.append(Failure("C15", "%s raised" % last["call"], exc=repr(ex), tb=traceback.format_exc(limit=-2), steps=steps))
+            break
+        if not check(brk, steps[-1]):
+            break
+    if not fails:
+        # the shape that owns the curve still denotes its region
+        fails += w.compare(shape, {"reg": reg, "frame": ()}, deep=False, tags={"region": "C15", "kind": "C15"})
+    return _result(uname, rname, "sc:%d:%s" % (reg, replay.hashlib.sha256(json.dumps(steps).encode()).hexdigest()[:8]), fails, t0, steps)
+
+
+import json  # noqa: E402
